@@ -617,7 +617,7 @@ def ratnorm(t, cache=None):
     ch = t.children()
     if kind in (z3.Z3_OP_DIV,):
         (an, ad), (bn, bd) = ratnorm(ch[0], cache), ratnorm(ch[1], cache)
-        r = (an * bd, ad * bn)
+        r = (an if bd.eq(one) else an * bd, bn if ad.eq(one) else ad * bn)
     elif kind == z3.Z3_OP_ADD:
         parts = [ratnorm(c, cache) for c in ch]
         if all(d.eq(one) for _, d in parts):
@@ -668,14 +668,24 @@ def cross_eq(a, b):
     one = z3.RealVal(1)
     if ad.eq(one) and bd.eq(one):
         return an == bn
-    d = z3.simplify(an * bd - bn * ad, som=True)
+    d = _som(_mul(an, bd) - _mul(bn, ad))
     return d == 0
+
+
+def _som(t):
+    """Sum-of-monomials normal form; a second pass removes the unit factors the first one can leave behind."""
+    return z3.simplify(z3.simplify(t, som=True), som=True)
+
+
+def _mul(a, b):
+    one = z3.RealVal(1)
+    return b if a.eq(one) else a if b.eq(one) else a * b
 
 
 def poly_zero(a, b):
     """True iff a - b normalises syntactically to 0 (z3 simplifier, sum-of-monomials)."""
     (an, ad), (bn, bd) = ratnorm(a), ratnorm(b)
-    d = z3.simplify(an * bd - bn * ad, som=True)
+    d = _som(_mul(an, bd) - _mul(bn, ad))
     return z3.is_rational_value(d) and d.numerator_as_long() == 0
 
 
@@ -836,7 +846,7 @@ def by_combination(goal, hyps, multipliers):
         e = hn * gd - gn * hd  # hypothesis: e == 0 (denominators non-zero)
         for m in multipliers:
             # diff/den == m * e/(hd*gd)  <=>  diff * hd * gd - m * e * den == 0
-            d = z3.simplify(diff * hd * gd - m * e * den, som=True)
+            d = _som(diff * hd * gd - m * e * den)
             if z3.is_rational_value(d) and d.numerator_as_long() == 0:
                 return i, m
     return None
